@@ -268,6 +268,23 @@ ROUND5 = {
 }
 
 
+# round 6 (changes away from the obvious function) and refactor round 5 (DESIGN.md 9.10)
+ROUND6 = {
+    "C01": " Round 6: Page.notes is evaluated for four shapes of the part in front of the first H1 (an H2 as the very first thing of the page included).",
+    "C02": " Round 6: the concrete scope scenario has items without any identifier (bare URLs) in front of dated headers and demands duplicate-free tag lists.",
+    "C04": " Round 6: which reading of a date spec is taken is read off the format handed to strptime (helper names are free).",
+    "C05": " Round 6: (R5) `db reindex <page>` is also entered through its CLI runner (the command the runner builds must spell the page as the notes directory is spelled).",
+    "C06": " Round 6: file_hash.json is never written while pages remain to be processed; a refused run records no page at all; the restricted reindex is also entered through run_db_reindex.",
+    "C07": " Round 6: (R3) neither `db create` nor `db reindex` may unlink / rewrite next_ids.json (the data directory lists its files to the abstract run); (R6) the write-back conservation runs are adopted; an internal exception of a write-back handler on a concrete page is a violation.",
+    "C08": " Round 6: (R6) the tag lists handed to the index are duplicate-free (C02's scope scenario adopted): a duplicate aborts `db create` on a valid page; the strptime recogniser may call any raiser of zorg.shared.dates; length guards through module constants.",
+    "C13": " Round 6: no hash-map write inside the page loop; the counter file is untouched by the command handlers; unlink+rename replacement of next_ids.json is refuted by the persistence scenarios.",
+    "C14": " Round 6: concrete renames of a template (.zot) and of a saved-query page (.zoq) next to a page of the same base name.",
+    "C15": " Round 6: diamonds whose shared saved query has alternatives; results are compared as canonical filter trees; (R4) ranges over whatever functions carry the expansion, a module-level container counts as a cache only if the module writes it.",
+    "C16": " Round 6: (R7) no Jinja environment on the template path escapes its output.",
+    "C17": " Round 6: page links under a notes directory whose path contains a dot; (R6) the ID / RID lookup statement is evaluated symbolically: note = link.note, link.property = property, property.name = key, link.value = id, all conjunctive.",
+}
+
+
 def main() -> None:
     props = [json.loads(l) for l in (VERIF / "properties.jsonl").read_text().splitlines() if l.strip()]
     checks = []
@@ -276,7 +293,7 @@ def main() -> None:
         pid = p["id"]
         if pid in CHECKS:
             tech, text, note, ref = CHECKS[pid]
-            text = text + ADDENDA.get(pid, "") + ROUND34.get(pid, "") + ROUND5.get(pid, "") + (METHOD if pid in ("C01", "C02", "C03", "C05", "C06", "C07", "C08", "C09", "C10", "C11", "C12", "C13", "C14", "C15", "C16", "C17", "C18") else "")
+            text = text + ADDENDA.get(pid, "") + ROUND34.get(pid, "") + ROUND5.get(pid, "") + ROUND6.get(pid, "") + (METHOD if pid in ("C01", "C02", "C03", "C05", "C06", "C07", "C08", "C09", "C10", "C11", "C12", "C13", "C14", "C15", "C16", "C17", "C18") else "")
             checks.append(
                 {
                     "property_id": pid,
